@@ -285,7 +285,7 @@ Section CLayer.
     | SSolveMtx true h ptr col val rhs x =>
         match tlookup h tb with
         | Some (ESolver n _) =>
-            let fresh := {| ac_ptr := ptr; ac_col := col; ac_p := map Z.pred (mi m ptr);
+            let fresh := {| ac_ptr := ptr; ac_col := col; ac_p := map Z.pred (firstn (n + 1) (mi m ptr));
                             ac_c := map Z.pred (firstn (Z.to_nat (zn (mi m ptr) n - 1)) (mi m col)) |} in
             let e := match clookup h cs with
                      | Some e => if ac_matches e n ptr col (mi m ptr) then e else fresh
